@@ -187,7 +187,19 @@ pub fn gen_install(r: &mut Rng, tier: Tier, max_entries: usize) -> InstallSpec {
                     Some(s) => format!("{}/{}/{}", cat_name, s, rest),
                     None => {
                         // base game: second component must not name an installed expansion
-                        if r.chance(1, 10) {
+                        if exps.len() > 1 && r.chance(1, 12) {
+                            // a token that merely looks like an installed expansion's name
+                            // ("ex01", "ex+1", "ex10" next to ex1) names no repository either
+                            let n = exps[1 + r.usize_below(exps.len() - 1)];
+                            let tok = match r.below(5) {
+                                0 => format!("ex0{}", n),
+                                1 => format!("ex00{}", n),
+                                2 => format!("ex+{}", n),
+                                3 => format!("ex{}0", n),
+                                _ => format!("ex{}_", n),
+                            };
+                            format!("{}/{}/{}", cat_name, tok, rest)
+                        } else if r.chance(1, 10) {
                             // exN token of an expansion that is NOT installed falls back to base
                             let missing: Vec<u8> = (1..=9).filter(|k| !exps.contains(k)).collect();
                             if missing.is_empty() {
@@ -335,7 +347,16 @@ pub fn generate(seed: u64, tier: Tier) -> Doc {
     let mut cfg = cfg;
     if r.chance(1, 6) && !queries.is_empty() {
         let q = r.pick(&queries).clone();
-        if q.kind != QKind::Extract {
+        if q.kind == QKind::Extract {
+            // the data file cannot be opened (or read) at this moment: the extraction may fail, it
+            // may never hand out the bytes of another entry
+            let (call, kind, nth) = match r.below(3) {
+                0 => (Call::Read, *r.pick(&[Hostile::Eio, Hostile::EarlyEof]), r.below(12) as u32),
+                _ => (Call::Open, *r.pick(&[Hostile::Eio, Hostile::Eacces, Hostile::Emfile, Hostile::Enoent]), 0),
+            };
+            io_faults.push(IoFault { op: q.id as usize, call, nth, kind, sticky: false, path_contains: Some(".dat".into()) });
+            cfg = Cfg::Hostile;
+        } else {
             let (call, kind, nth) = match r.below(3) {
                 0 => (Call::Open, *r.pick(&[Hostile::Eio, Hostile::Eacces, Hostile::Emfile]), r.below(3) as u32),
                 _ => (Call::Read, *r.pick(&[Hostile::Eio, Hostile::EarlyEof]), r.log_size(400) as u32),
@@ -424,6 +445,8 @@ pub fn directed() -> Vec<Doc> {
         q(15, QKind::Exists, "exd/absent.exh"),
         q(16, QKind::Exists, "EXD/THE_QUICK_BROWN_FOX/JUMPS_OVER_A_LAZY_DOG.EXH"),
         q(17, QKind::Extract, "exd/The_Quick_Brown_Fox/Jumps_Over_A_Lazy_Dog.exh"),
+        q(18, QKind::Extract, "bg/ex1/01_roc_r2/level/b.lgb"),
+        q(19, QKind::Extract, "bg/ex1/01_roc_r2/level/b.lgb"),
     ];
     let noisy = Benign { short_read: 100, eintr_read: 50, short_write: 0, eintr_write: 0, one_byte_reads: false, one_byte_writes: false, permute_dirs: true };
     let mut out = vec![];
@@ -470,6 +493,19 @@ pub fn directed() -> Vec<Doc> {
             });
             idx += 1;
         }
+    }
+    // the data file of an entry cannot be opened when it is wanted (dat3 of a pack whose dat0 holds
+    // another entry at the same offset); the next extraction finds it again
+    for kind in [Hostile::Emfile, Hostile::Eacces, Hostile::Enoent, Hostile::Eio] {
+        out.push(Doc {
+            prop: "C01".into(),
+            seed: 0xD1EC7ED0 + idx,
+            cfg: Cfg::Hostile,
+            benign: Benign::quiet(),
+            io_faults: vec![IoFault { op: 18, call: Call::Open, nth: 0, kind, sticky: false, path_contains: Some(".dat3".into()) }],
+            body: Body::C01(C01Doc { install: install.clone(), queries: queries.clone(), via_patch: false }),
+        });
+        idx += 1;
     }
     // the same install with its entry tables in the order the entries were added, and descending
     for order in [1u8, 2] {
